@@ -269,6 +269,14 @@ let handle_rxrefs words =
     if RegexRefs.back_references_ok ext nl cls (cps pat) then "1" else "0"
   | _ -> "badcase"
 
+(* rxclasses regextype pattern(cps) -> 1/0: the bracket expressions are closed and well-formed *)
+let handle_rxclasses words =
+  match words with
+  | [ty; pat] ->
+    let cls = (match ty with "emacs" -> false | "grep" | "posix-extended" | "posix-basic" | "ed" | "sed" -> true | _ -> failwith "regextype") in
+    if RegexClasses.classes_ok cls (cps pat) then "1" else "0"
+  | _ -> "badcase"
+
 (* ---- paths ---- *)
 let hexlist l = if l = [] then "~" else String.concat "," (Stdlib.List.map hex_of_bytes l)
 let bl s = Stdlib.List.map bytes_of_hex (list_of s)
@@ -482,7 +490,7 @@ let handle_args words =
   | _ -> "badcase"
 
 let handlers : (string * (string list -> string)) list ref =
-  ref [ ("xread", handle_xread); ("xargs", handle_xargs); ("xrepl", handle_xrepl); ("xnorm", handle_xnorm); ("walk", handle_walk); ("unfoldg", handle_unfoldg); ("expr", handle_expr); ("num", handle_num); ("glob", handle_glob); ("rxwrap", handle_rxwrap); ("rxrefs", handle_rxrefs); ("paths", handle_paths); ("delete", handle_delete); ("execm", handle_execm); ("limits", handle_limits); ("entry", handle_entry); ("regex", handle_regex); ("printf", handle_printf); ("pv", handle_pv); ("args", handle_args) ]
+  ref [ ("xread", handle_xread); ("xargs", handle_xargs); ("xrepl", handle_xrepl); ("xnorm", handle_xnorm); ("walk", handle_walk); ("unfoldg", handle_unfoldg); ("expr", handle_expr); ("num", handle_num); ("glob", handle_glob); ("rxwrap", handle_rxwrap); ("rxrefs", handle_rxrefs); ("rxclasses", handle_rxclasses); ("paths", handle_paths); ("delete", handle_delete); ("execm", handle_execm); ("limits", handle_limits); ("entry", handle_entry); ("regex", handle_regex); ("printf", handle_printf); ("pv", handle_pv); ("args", handle_args) ]
 
 let () =
   try while true do
